@@ -180,4 +180,108 @@ theorem decode_same_apply {lock : Nat} {f : Ltx} {img : Db} (h : decodeDb lock f
     · simp at h
 
 
+
+theorem latest_append (a b : List Ltx) (p : Nat) :
+    latest (a ++ b) p = match latest b p with | some t => some t | none => latest a p := by
+  induction a with
+  | nil => simp only [List.nil_append, latest]; cases latest b p <;> rfl
+  | cons f r ih =>
+    simp only [List.cons_append]
+    rw [latest_cons, ih, latest_cons]
+    cases latest b p with
+    | some t => rfl
+    | none => rfl
+
+/-- Commit of the last file of a list (0 when empty). -/
+def endCommit : List Ltx → Nat
+  | [] => 0
+  | f :: r => (lastOf f r).commit
+
+theorem endCommit_append_cons (a : List Ltx) (h : Ltx) (t : List Ltx) : endCommit (a ++ h :: t) = (lastOf h t).commit := by
+  cases a with
+  | nil => rfl
+  | cons f r => show (lastOf f (r ++ h :: t)).commit = _; rw [lastOf_append]; rfl
+
+theorem compact_commit {lock : Nat} {fs : List Ltx} {g : Ltx} (hc : compact lock fs = .ok g) : g.commit = endCommit fs := by
+  have ok := compact_ok hc
+  cases fs with
+  | nil => exact absurd rfl ok.ne
+  | cons f r => exact (ok.lastEq f r rfl).2.1
+
+/-- The files of a plan form a growth-complete chain themselves. -/
+theorem planChain_growth {lock : Nat} {dn todo plan : List Ltx} (h : PlanChain lock dn todo plan) :
+    (∀ x ∈ dn ++ todo, PagesOk lock x) → GrowthComplete lock (dn ++ todo) →
+    ∀ x : Ltx, dn ≠ [] → x.commit = endCommit dn → growthFrom lock x plan := by
+  induction h with
+  | done d => intro _ _ x _ _; trivial
+  | @step pre s1 s2 rest plan g hne hc _ ih =>
+    intro hok hg x hdn hx
+    have e : pre ++ s1 ++ (s2 ++ rest) = pre ++ s1 ++ s2 ++ rest := by simp
+    rw [e] at hok hg
+    cases s2 with
+    | nil => exact absurd rfl hne
+    | cons h t =>
+      have hgc : g.commit = (lastOf h t).commit := by rw [compact_commit hc, endCommit_append_cons]
+      have ok := compact_ok hc
+      refine ⟨?_, ?_⟩
+      · intro p hp1 hp2 hp3
+        -- the database grows from the end of `pre ++ s1` to the end of `h :: t`
+        have hg1 : GrowthComplete lock ((pre ++ s1) ++ (h :: t)) := (growthComplete_append hg).1
+        cases hd : pre ++ s1 with
+        | nil => exact absurd hd hdn
+        | cons d0 dr =>
+          rw [hd] at hg1 hx
+          have hgf : growthFrom lock d0 (dr ++ h :: t) := hg1
+          rw [growthFrom_append] at hgf
+          have hpres := growth_present t (lastOf d0 dr) h hgf.2 (by
+            have : endCommit (d0 :: dr) = (lastOf d0 dr).commit := rfl
+            omega) (by omega) hp3
+          rw [ok.look p]
+          simp only [hp2, if_true]
+          rw [latest_append]
+          cases hl : latest (h :: t) p with
+          | some u => rfl
+          | none => rw [hl] at hpres; simp at hpres
+      · apply ih hok hg g (by simp)
+        rw [hgc, endCommit_append_cons]
+
+theorem planChain_pagesOk {lock : Nat} {dn todo plan : List Ltx} (h : PlanChain lock dn todo plan) :
+    (∀ x ∈ dn ++ todo, PagesOk lock x) → ∀ x ∈ plan, PagesOk lock x := by
+  induction h with
+  | done d => intro _ x hx; cases hx
+  | @step pre s1 s2 rest plan g hne hc _ ih =>
+    intro hok x hx
+    have e : pre ++ s1 ++ (s2 ++ rest) = pre ++ s1 ++ s2 ++ rest := by simp
+    rw [e] at hok
+    simp only [List.mem_cons] at hx
+    rcases hx with hx | hx
+    · subst hx
+      exact compact_pagesOk hc (fun y hy => hok y (by
+        simp only [List.mem_append] at hy ⊢; rcases hy with h | h <;> simp [h]))
+    · exact ih hok x hx
+
+theorem plan_growthComplete_aux {lock : Nat} {dn l0 plan : List Ltx} (h : PlanChain lock dn l0 plan) (hdn : dn = [])
+    (hok : ∀ x ∈ l0, PagesOk lock x) (hg : GrowthComplete lock l0) : GrowthComplete lock plan := by
+  cases h with
+  | done => trivial
+  | @step pre s1 s2 rest plan' g hne hc hch =>
+    have hpre : pre = [] ∧ s1 = [] := by
+      cases pre with
+      | nil => cases s1 with
+        | nil => exact ⟨rfl, rfl⟩
+        | cons a b => cases hdn
+      | cons a b => cases hdn
+    obtain ⟨h1, h2⟩ := hpre
+    subst h1; subst h2
+    simp only [List.nil_append] at hch hc
+    show growthFrom lock g plan'
+    apply planChain_growth hch (by simpa using hok) (by simpa using hg) g hne
+    exact compact_commit hc
+
+/-- A plan starting from nothing is growth-complete. -/
+theorem plan_growthComplete {lock : Nat} {l0 plan : List Ltx} (h : PlanChain lock [] l0 plan)
+    (hok : ∀ x ∈ l0, PagesOk lock x) (hg : GrowthComplete lock l0) : GrowthComplete lock plan :=
+  plan_growthComplete_aux h rfl hok hg
+
+
 end Litestream
